@@ -43,7 +43,10 @@ def script(rng, kinds, n):
         q = rng.random()
         if q < 0.6:
             w += 1
-            steps.append({"a": "wrtp", "s": 1, "w": w % 65536, "id": ident, "len": rng.choice([0, 1, 5, 40, 300, 1200, 1460]),
+            lens = [0, 1, 5, 40, 300, 1200, 1460]
+            if "nackresp" not in kinds:          # (the responder refuses payloads above 1460 bytes)
+                lens += [1461, 1461, 2000, 4000]
+            steps.append({"a": "wrtp", "s": 1, "w": w % 65536, "id": ident, "len": rng.choice(lens),
                           "shape": rng.choice([0, 0, 2, 3, 3]), "fail": False})
             sent.append(w % 65536)
         elif q < 0.8:
